@@ -233,3 +233,774 @@ def generate(repo, outfile):
         with open(outfile, "w") as f:
             f.write(text)
     return {"classes": classes, "gs_id_uses_folder": uf, "gs_id_source": src}
+
+
+def regenerate(repo=None):
+    from . import common
+    return generate(repo or common.REPO, os.path.join(common.COQ, "C11", "Gen.v"))
+
+
+# ---------------------------------------------------------------------------
+# check
+# ---------------------------------------------------------------------------
+import hashlib  # noqa: E402
+import json  # noqa: E402
+import struct  # noqa: E402
+
+from . import common  # noqa: E402
+from .common import cZ, cnat, cbool, clist, copt, cstr, cpair  # noqa: E402
+
+REAL_CLASSES = ["LBFGS", "BFGS", "DynestyStatic", "PySwarmsGlobal", "PySwarmsLocal", "Drawer"]
+STD_JSONS = ("info", "search", "model", "samples_summary", "samples_info")
+
+
+def digest(obj):
+    return hashlib.sha1(json.dumps(obj, sort_keys=True, default=str).encode()).hexdigest()[:16]
+
+
+def unhex(s):
+    return float(s) if s in ("nan", "inf", "-inf") else float.fromhex(s)
+
+
+def fkey(x):
+    """order-preserving integer key of a binary64 value (-0.0 and 0.0 share key 0)"""
+    if isinstance(x, str):
+        x = unhex(x)
+    bits = struct.unpack(">q", struct.pack(">d", float(x)))[0]
+    return bits if bits >= 0 else -(bits & 0x7FFFFFFFFFFFFFFF)
+
+
+def vec_str(hexes):
+    return ",".join(hexes)
+
+
+def hexf(x):
+    return float(x).hex()
+
+
+# ----- generator -----------------------------------------------------------
+
+def dy(rng, lo=0, hi=8, den=8):
+    return rng.randint(lo, hi) / den
+
+
+def gen_prior(rng):
+    r = rng.random()
+    if r < 0.5:
+        lo = dy(rng, -8, 4)
+        return ["U", lo, lo + dy(rng, 1, 16)]
+    if r < 0.8:
+        return ["G", dy(rng, -8, 8), dy(rng, 1, 8)]
+    return ["L", dy(rng, 1, 4), 1.0 + dy(rng, 1, 16)]
+
+
+def gen_model(rng, allow_arith=False, need_shared=0):
+    """Abstract model spec (see impl/c11_impl.build_model). Returns (spec, number of free parameters)."""
+    shared = [["U", 0.0, 1.0] for _ in range(need_shared)]
+    if rng.random() < 0.4 and not need_shared:
+        shared = [gen_prior(rng) for _ in range(rng.randint(1, 2))]
+    used_shared = set()
+    free = [0]
+
+    def prior(depth=0):
+        r = rng.random()
+        if shared and r < 0.3:
+            k = rng.randrange(len(shared))
+            used_shared.add(k)
+            return ["S", k]
+        if r < 0.45:
+            return ["C", dy(rng, -8, 8)]
+        free[0] += 1
+        return gen_prior(rng)
+
+    def comp(depth=0):
+        cls = rng.choice(["K1", "K2", "K2", "K3", "KT", "KN"] if depth == 0 else ["K1", "K2"])
+        args = {}
+        if cls == "K1":
+            args["u"] = prior()
+        elif cls == "K2":
+            args["a"], args["b"] = prior(), prior()
+        elif cls == "K3":
+            args["x"], args["y"], args["z"] = prior(), prior(), prior()
+        elif cls == "KT":
+            args["c"] = prior()
+            args["pos"] = ["T", [prior(), prior()]]
+        elif cls == "KN":
+            args["inner"] = ["M", comp(depth + 1)]
+            args["s"] = prior()
+        return {"cls": cls, "args": args}
+
+    ncomp = rng.choice([1, 1, 2, 2, 3])
+    collection = ncomp > 1 or rng.random() < 0.6 or bool(need_shared)
+    comps = []
+    for i in range(ncomp):
+        c = comp()
+        c["name"] = "g%d" % i
+        comps.append(c)
+    # every shared prior demanded by a grid must appear in the model
+    for k in range(need_shared):
+        if k not in used_shared:
+            comps.append({"name": "h%d" % k, "cls": "K1", "args": {"u": ["S", k]}})
+            used_shared.add(k)
+    spec = {"collection": collection, "shared": shared, "comps": comps}
+    arith = False
+    if allow_arith and shared and used_shared:
+        k = sorted(used_shared)[0]
+        comps.append({"name": "ar", "cls": "K1", "args": {"u": ["A", k, 1.0]}})
+        spec["collection"] = True
+        arith = True
+    nfree = free[0] + len(used_shared)
+    if nfree == 0:
+        comps.append({"name": "z", "cls": "K1", "args": {"u": ["U", 0.0, 1.0]}})
+        spec["collection"] = True
+        nfree = 1
+    if not spec["collection"] and len(comps) > 1:
+        spec["collection"] = True
+    return spec, nfree, arith
+
+
+def gen_script(rng, interrupt=None):
+    n = rng.choice([1, 2, 3, 3, 4, 6])
+    vectors = [[dy(rng, 0, 8) for _ in range(12)] for _ in range(n)]
+    pool = [-dy(rng, 0, 32, 4) for _ in range(max(1, n - rng.randint(0, 2)))]  # ties are likely
+    logl = [rng.choice(pool) for _ in range(n)]
+    return {"vectors": vectors, "logl": logl, "interrupt": interrupt}
+
+
+def gen_fit(rng, idx, kind="single", real=None, allow_arith=False):
+    tag = rng.choice([None, "t1", "t1", "t2", "data_7"])
+    prefix = rng.choice([None, "pp", "pp", "pp/qq"])
+    grid = None
+    need_shared = 0
+    if kind == "grid":
+        dims = rng.choice([1, 1, 2])
+        need_shared = dims
+        grid = {"steps": 2, "shared": list(range(dims))}
+    model, nfree, arith = gen_model(rng, allow_arith=allow_arith, need_shared=need_shared)
+    interrupt = None
+    if kind == "single" and real is None and rng.random() < 0.3:
+        interrupt = rng.choice(["before_samples", "after_samples"])
+    info = rng.choice([None, {}, {"k": "v"}, {"dataset": "d%d" % idx, "note": "x y"}])
+    f = {
+        "type": "grid" if kind == "grid" else "single",
+        "name": "%s%d" % ("g" if kind == "grid" else "s", idx),
+        "tag": tag, "prefix": prefix,
+        "search": {"cls": real or "Scripted", "script_id": idx, "flavour": rng.choice(["a", "b"])},
+        "model": model, "info": info,
+        "layout": rng.choice(["zip", "folder", "both"]),
+        "n_analyses": rng.choice([1, 1, 1, 2, 3]) if (kind == "single" and real is None) else 1,
+        "scripts": [gen_script(rng, interrupt)],
+        "nfree": nfree, "arith": arith,
+    }
+    if kind == "grid":
+        f["grid"] = grid
+        ncell = 2 ** len(grid["shared"])
+        f["scripts"] = [gen_script(rng) for _ in range(ncell)]
+        if rng.random() < 0.25:
+            f["scripts"][-1]["interrupt"] = "after_samples"
+    return f
+
+
+SETTINGS_KW = {
+    "Emcee": [{"nwalkers": 6, "nsteps": 4}, {"nwalkers": 12}],
+    "Zeus": [{"nwalkers": 6}, {"tune": False}],
+    "DynestyStatic": [{"nlive": 20}, {"nlive": 40, "sample": "rwalk", "walks": 7}],
+    "DynestyDynamic": [{"bound": "single"}, {"walks": 9, "facc": 0.25}],
+    "Nautilus": [{"n_live": 123}, {"n_networks": 2, "seed": 7}],
+    "UltraNest": [{"ndraw_min": 17}, {"min_num_live_points": 77}],
+    "PySwarmsGlobal": [{"n_particles": 4, "iters": 3}, {"cognitive": 0.25}],
+    "PySwarmsLocal": [{"n_particles": 6}, {"number_of_k_neighbors": 2, "minkowski_p_norm": 1}],
+    "Drawer": [{"total_draws": 5}, {"total_draws": 9}],
+    "LBFGS": [{}, {"visualize": True}],
+    "BFGS": [{}, {"visualize": True}],
+}
+
+
+def gen_settings(rng, classes, per_class):
+    cases = []
+    for cls in classes:
+        for k in range(per_class):
+            kw = dict(rng.choice(SETTINGS_KW.get(cls, [{}]) + [{}]))
+            if rng.random() < 0.4:
+                kw["iterations_per_update"] = rng.choice([50, 100, 777])
+            if rng.random() < 0.3 and cls not in ("Drawer",):
+                kw["number_of_cores"] = rng.choice([1, 2])
+            if rng.random() < 0.3 and cls not in ("PySwarmsLocal",):
+                kw["initializer"] = rng.choice(["ball", "prior"])
+            cases.append({"kind": "settings", "cls": cls, "kwargs": kw,
+                          "name": rng.choice(["n", "fit_a", "x1"]), "tag": rng.choice([None, "t1", "data_7"]),
+                          "prefix": rng.choice([None, "pp", "pp/qq"])})
+    return cases
+
+
+def gen_cases(ctx, classes):
+    rng = ctx.rng
+    thorough = ctx.tier == "thorough"
+    cases = [{"kind": "classes"}]
+    cases += gen_settings(rng, classes, 4 if not thorough else 14)
+    nf, nd = (7, 7) if not thorough else (40, 40)
+    scen = []
+    # (1) scripted single fits: CFits
+    for k in range(nf):
+        n = rng.randint(2, 4)
+        fits = [gen_fit(rng, i, allow_arith=(thorough and rng.random() < 0.08) or (not thorough and k == nf - 1 and i == 0))
+                for i in range(n)]
+        scen.append({"kind": "scenario", "flavour": "fits", "fits": fits, "completed_only": rng.random() < 0.3})
+    # (2) directories with grid searches / real search classes / copies: CDir
+    for k in range(nd):
+        fits = []
+        r = rng.random()
+        if k == 0:
+            fits = [gen_fit(rng, i, real=c) for i, c in enumerate(["LBFGS", "DynestyStatic", "PySwarmsGlobal"])]
+        elif k == 1:
+            fits = [gen_fit(rng, 0, real="Drawer"), gen_fit(rng, 1)]
+        elif k == 2:
+            # two grid searches sharing their unique tag (the usual case: one dataset, two models)
+            a, b = gen_fit(rng, 0, kind="grid"), gen_fit(rng, 1, kind="grid")
+            b["tag"] = a["tag"]
+            fits = [a, b]
+        elif r < 0.5:
+            fits = [gen_fit(rng, 0, kind="grid")] + [gen_fit(rng, i + 1) for i in range(rng.randint(0, 2))]
+        elif r < 0.75:
+            fits = [gen_fit(rng, 0, kind="grid"), gen_fit(rng, 1, kind="grid")] + [gen_fit(rng, 2)]
+        elif r < 0.9:
+            fits = [gen_fit(rng, i, real=rng.choice(REAL_CLASSES[:5])) for i in range(2)] + [gen_fit(rng, 2)]
+        else:
+            fits = [gen_fit(rng, i) for i in range(rng.randint(1, 3))]
+        sc = {"kind": "scenario", "flavour": "dir", "fits": fits, "completed_only": rng.random() < 0.25}
+        if k >= 3 and rng.random() < 0.2:
+            singles = [i for i, f in enumerate(fits) if f["type"] == "single" and f["search"]["cls"] == "Scripted"]
+            if singles:
+                sc["copies"] = [{"fit": rng.choice(singles), "to": "copy"}]
+        scen.append(sc)
+    return cases + scen
+
+
+# ----- classes of a case (for known findings) ---------------------------------
+
+def case_classes(c):
+    if c["kind"] == "settings":
+        return ["search-class:" + c["cls"]]
+    if c["kind"] != "scenario":
+        return []
+    out = set()
+    tags = []
+    for f in c["fits"]:
+        if f["search"]["cls"] != "Scripted":
+            out.add("search-class:" + f["search"]["cls"])
+        if f.get("arith"):
+            out.add("model:arith-prior")
+        if f["type"] == "grid":
+            tags.append(f.get("tag"))
+    if len(tags) != len(set(tags)):
+        out.add("grid-searches-share-tag")
+    if c.get("copies"):
+        out.add("copied-folder")
+    return sorted(out)
+
+
+# ----- abstraction of implementation observations ----------------------------
+
+def json_names(e):
+    return sorted(e.get("json_digests", {}).keys())
+
+
+def info_digest(info):
+    return digest({str(k): v for k, v in info.items()}) if info else None
+
+
+def samples_of(e):
+    """[(vec, llkey, inst)] of an inspected folder or None"""
+    if not e.get("samples"):
+        return None
+    insts = (e.get("recomputed") or {}).get("insts")
+    rows = e["samples"]["rows"]
+    return [(vec_str(r["v"]), fkey(r["ll"]), insts[i] if insts else "") for i, r in enumerate(rows)]
+
+
+def folder_of(e):
+    rc = e.get("recomputed") or {}
+    return {
+        "path": e["rel"].split("/"),
+        "metadata": e["metadata"], "completed": e["completed"], "marker": e["grid_marker"],
+        "parent_file": e["parent_identifier"], "written_id": e.get("description_md5") or "",
+        "cls": e.get("search_cls") or "", "keys": e.get("search_keys") or [],
+        "name": e.get("search_name") if isinstance(e.get("search_name"), str) else "",
+        "tag": e.get("search_tag") if isinstance(e.get("search_tag"), str) else None,
+        "reload_id": rc.get("id") or "",
+        "model": digest(rc["model"]) if rc.get("model") is not None else (e.get("model_digest") or ""),
+        "info": info_digest(e["info"]) if isinstance(e.get("info"), dict) else None,
+        "samples": samples_of(e),
+        "jsons": json_names(e),
+        "analyses": [sorted(a.get("json_digests", {}).keys()) for a in e.get("analyses", [])],
+    }
+
+
+def row_of(f):
+    """observed database fit -> abstract row"""
+    smp = None
+    if isinstance(f.get("samples"), list):
+        smp = [(vec_str(r["v"]), fkey(r["ll"]), "") for r in f["samples"]]
+    info = f.get("info")
+    return {
+        "id": f["id"], "name": f["name"], "tag": f["unique_tag"], "complete": f["is_complete"],
+        "grid": bool(f["is_grid_search"]), "parent": f["parent_id"],
+        "model": digest(f["model"]) if isinstance(f.get("model"), dict) else None,
+        "info": info_digest(info) if isinstance(info, dict) else None,
+        "samples": smp,
+        "instance": f.get("instance_digest") if isinstance(f.get("instance_digest"), str) and not str(f.get("instance_digest")).startswith("exc:") else None,
+        "maxll": None if f["max_log_likelihood"] is None else fkey(f["max_log_likelihood"]),
+        "jsons": f["jsons"],
+    }
+
+
+# ----- Coq printers -----------------------------------------------------------------
+
+def c_sample(s):
+    return "{| s_vec := %s; s_ll := %s; s_inst := %s |}" % (cstr(s[0]), cZ(s[1]), cstr(s[2]))
+
+
+def c_samples(l):
+    return copt(l, lambda x: clist([c_sample(s) for s in x]))
+
+
+def c_ostr(x):
+    return copt(x, cstr)
+
+
+def c_strs(l):
+    return clist([cstr(x) for x in l])
+
+
+def c_folder(f):
+    return ("{| f_path := %s; f_metadata := %s; f_completed := %s; f_marker := %s; f_parent_file := %s; "
+            "f_written_id := %s; f_class := %s; f_keys := %s; f_name := %s; f_tag := %s; f_reload_id := %s; "
+            "f_model := %s; f_info := %s; f_samples := %s; f_jsons := %s; f_analyses := %s |}") % (
+        c_strs(f["path"]), cbool(f["metadata"]), cbool(f["completed"]), c_ostr(f["marker"]), c_ostr(f["parent_file"]),
+        cstr(f["written_id"]), cstr(f["cls"]), c_strs(f["keys"]), cstr(f["name"]), c_ostr(f["tag"]), cstr(f["reload_id"]),
+        cstr(f["model"]), c_ostr(f["info"]), c_samples(f["samples"]), c_strs(f["jsons"]),
+        clist([c_strs(a) for a in f["analyses"]]))
+
+
+def c_row(r):
+    return ("{| r_id := %s; r_name := %s; r_tag := %s; r_complete := %s; r_grid := %s; r_parent := %s; r_model := %s; "
+            "r_info := %s; r_samples := %s; r_instance := %s; r_maxll := %s; r_jsons := %s |}") % (
+        cstr(r["id"]), c_ostr(r["name"]), c_ostr(r["tag"]), copt(r["complete"], cbool), cbool(r["grid"]), c_ostr(r["parent"]),
+        c_ostr(r["model"]), c_ostr(r["info"]), c_samples(r["samples"]), c_ostr(r["instance"]), copt(r["maxll"], cZ),
+        c_strs(r["jsons"]))
+
+
+def c_observed(sc):
+    if sc.get("exc"):
+        return "(ObsRaised %s)" % cstr(sc["exc"])
+    return "(ObsLoaded %s)" % clist([c_row(row_of(f)) for f in sc["fits"]])
+
+
+DUMMY_ROW = {"id": "MISSING", "name": None, "tag": None, "complete": None, "grid": False, "parent": None, "model": None,
+             "info": None, "samples": None, "instance": None, "maxll": None, "jsons": []}
+
+
+def spec_of(f, rec, entry):
+    """abstract fit_spec of a scripted single fit: from the CASE (what was asked), the identifier the code
+    chose, and oracle values (search.json keys, recomputed identifier) read independently from the files."""
+    n = rec.get("prior_count", f["nfree"])
+    sc = f["scripts"][0]
+    insts = rec.get("insts") or [""] * len(sc["vectors"])
+    samples = [(vec_str([hexf(x) for x in v[:n]]), fkey(ll), insts[i]) for i, (v, ll) in enumerate(zip(sc["vectors"], sc["logl"]))]
+    na = f.get("n_analyses", 1)
+    rc = (entry or {}).get("recomputed") or {}
+    return {
+        "prefix": f["prefix"].split("/") if f.get("prefix") else [],
+        "tag": f.get("tag"), "name": f["name"], "id": rec.get("identifier") or "",
+        "cls": (entry or {}).get("search_cls") or "ScriptedSearch", "keys": (entry or {}).get("search_keys") or [],
+        "reload_id": rc.get("id") or "",
+        "model": digest(rec["model"]), "info": info_digest(f.get("info")),
+        "samples": samples, "interrupt": {None: "NoInterrupt", "before_samples": "BeforeSamples", "after_samples": "AfterSamples"}[sc.get("interrupt")],
+        "extra": ["attr"] if na == 1 else [], "analyses": [["attr"]] * na if na > 1 else [],
+    }
+
+
+def c_spec(s):
+    return ("{| fs_prefix := %s; fs_tag := %s; fs_name := %s; fs_id := %s; fs_class := %s; fs_keys := %s; fs_reload_id := %s; "
+            "fs_model := %s; fs_info := %s; fs_samples := %s; fs_interrupt := %s; fs_extra_jsons := %s; fs_analyses := %s |}") % (
+        c_strs(s["prefix"]), c_ostr(s["tag"]), cstr(s["name"]), cstr(s["id"]), cstr(s["cls"]), c_strs(s["keys"]), cstr(s["reload_id"]),
+        cstr(s["model"]), c_ostr(s["info"]), clist([c_sample(x) for x in s["samples"]]), s["interrupt"], c_strs(s["extra"]),
+        clist([c_strs(a) for a in s["analyses"]]))
+
+
+def spec_path(s):
+    return s["prefix"] + ([s["tag"]] if s["tag"] is not None else []) + [s["name"], s["id"]]
+
+
+def coq_case(c, r):
+    """Coq term of type `case` or None"""
+    if c["kind"] == "settings":
+        if r.get("missing") or r.get("stage") in ("construct", "to_dict"):
+            return None
+        return "CSettings %s %s %s" % (cstr(c["cls"]), c_strs(r.get("argument_keys", [])), cbool(r.get("stage") in ("ok", "identifier")))
+    if c["kind"] != "scenario":
+        return None
+    entries = {e["rel"]: e for e in r["directory"]}
+    if c["flavour"] == "fits" and not c.get("copies"):
+        specs, found, direct = [], [], []
+        drows = {f["id"]: f for f in (r["direct"] or {}).get("fits", [])}
+        for f, rec in zip(c["fits"], r["fits"]):
+            if rec.get("exc") or not rec.get("identifier"):
+                return None
+            pre = f["prefix"].split("/") if f.get("prefix") else []
+            rel = "/".join(pre + ([f["tag"]] if f.get("tag") is not None else []) + [f["name"], rec["identifier"]])
+            e = entries.get(rel)
+            s = spec_of(f, rec, e)
+            specs.append(s)
+            found.append(c_folder(folder_of(e)) if e else c_folder(dict(folder_of({"rel": "MISSING", "metadata": False, "completed": False, "grid_marker": None, "parent_identifier": None}))))
+            d = drows.get(rec["identifier"])
+            direct.append(c_row(row_of(d)) if d else c_row(DUMMY_ROW))
+        paths = ["/".join(spec_path(s)) for s in specs]
+        walk = [paths.index(p) for p in r["scrape"]["walk_order"] if p in paths]
+        return "CFits %s %s %s %s %s %s" % (cbool(c.get("completed_only", False)), clist([c_spec(s) for s in specs]),
+                                            clist([cnat(i) for i in walk]), clist(found), c_observed(r["scrape"]), clist(direct))
+    # CDir: the directory as found by the independent inspection, in the aggregator's walk order
+    order = [p for p in r["scrape"]["walk_order"] if p in entries]
+    rest = [p for p in entries if p not in order]
+    folders = [folder_of(entries[p]) for p in order + rest]
+    best = []
+    for f in r["scrape"].get("fits", []):
+        if f["is_grid_search"] and unique_best(f, r["scrape"]["fits"]):
+            b = f.get("best_fit")
+            best.append(cpair(cstr(f["id"]), c_ostr(b if isinstance(b, str) and not b.startswith("exc:") else None)))
+    return "CDir %s %s %s %s" % (cbool(c.get("completed_only", False)), clist([c_folder(x) for x in folders]),
+                                 c_observed(r["scrape"]), clist(best))
+
+
+def unique_best(gs, fits):
+    lls = [f["max_log_likelihood"] for f in fits if f["parent_id"] == gs["id"]]
+    if not lls or any(x is None for x in lls):
+        return True  # the model predicts the TypeError / no children case too
+    vals = [unhex(x) for x in lls]
+    return vals.count(max(vals)) == 1
+
+
+# ----- property oracle (independent of the Coq model) -------------------------------
+
+def oracle_settings(c, r):
+    if r.get("missing"):
+        return "search class %s no longer exists" % c["cls"]
+    if r.get("stage") != "ok":
+        return "%s: search settings cannot be read back (%s at %s: %s)" % (c["cls"], r.get("exc"), r.get("stage"), r.get("msg", "")[:120])
+    if r["reload_type"] != c["cls"]:
+        return "%s reloaded as %s" % (c["cls"], r["reload_type"])
+    if r["reload_tokens"] != r["live_tokens"]:
+        return "%s: identifier tokens change on reload: %s -> %s" % (c["cls"], r["live_tokens"], r["reload_tokens"])
+    if r["reload_id"] != r["live_id"]:
+        return "%s: identifier %s recomputed as %s" % (c["cls"], r["live_id"], r["reload_id"])
+    if r["reload_name"] != (c.get("name") or "") or r["reload_tag"] != c.get("tag"):
+        return "%s: name/tag %r/%r reloaded as %r/%r" % (c["cls"], c.get("name"), c.get("tag"), r["reload_name"], r["reload_tag"])
+    return None
+
+
+def oracle_scenario(c, r):
+    """Direct statement of C11 on what the implementation wrote and loaded. Returns a message or None."""
+    sc = r["scrape"]
+    co = bool(c.get("completed_only", False))
+    for f, rec in zip(c["fits"], r["fits"]):
+        if rec.get("exc") and f["search"]["cls"] == "Scripted":
+            return "writing fit %s failed: %s %s" % (f["name"], rec["exc"], rec.get("msg"))
+    if sc.get("exc"):
+        return "add_directory raised %s: %s" % (sc["exc"], sc.get("msg", "")[:160])
+    rows = {f["id"]: f for f in sc["fits"]}
+    if len(rows) != len(sc["fits"]):
+        return "duplicate ids in the database"
+    outs = [e for e in r["directory"] if e["metadata"] and (not co or e["completed"])]
+    gss = [e for e in r["directory"] if e["grid_marker"] is not None and (not co or e["completed"])]
+    seen = set()
+    written = {}
+    for e in outs:
+        wid = e.get("description_md5")
+        written.setdefault(wid, []).append(e)
+    for e in outs:
+        wid = e.get("description_md5")
+        is_cell = e["parent_identifier"] is not None
+        if not is_cell and e["folder"] != wid:
+            return "folder %s holds identifier %s" % (e["rel"], wid)
+        f = rows.get(wid)
+        if f is None:
+            rid = (e.get("recomputed") or {}).get("id")
+            return "fit written under %s has no database fit with that id (recomputed id %s)" % (wid, rid)
+        seen.add(wid)
+        if len(written[wid]) > 1:
+            continue  # copies of one fit: one row, contents of either copy
+        if f["name"] != e.get("search_name") or f["unique_tag"] != e.get("search_tag"):
+            return "fit %s: name/tag %r/%r but search.json has %r/%r" % (wid, f["name"], f["unique_tag"], e.get("search_name"), e.get("search_tag"))
+        if bool(f["is_complete"]) != e["completed"]:
+            return "fit %s: is_complete %r but .completed %s" % (wid, f["is_complete"], e["completed"])
+        want_info = {str(k): v for k, v in e["info"].items()} if isinstance(e.get("info"), dict) else {}
+        if f["info"] != want_info:
+            return "fit %s: info %r but info.json holds %r" % (wid, f["info"], want_info)
+        rc = e.get("recomputed") or {}
+        if rc.get("model") is not None and f["model"] != rc["model"]:
+            return "fit %s: stored model differs from model.json" % wid
+        for nm, dg in e.get("json_digests", {}).items():
+            if f["json_digest"].get(nm) != dg:
+                return "fit %s: json %s missing or different in the database" % (wid, nm)
+        if e.get("samples"):
+            want = [(q["v"], q["ll"], q["lp"], q["w"]) for q in e["samples"]["rows"]]
+            got = [(q["v"], q["ll"], q["lp"], q["w"]) for q in f["samples"]] if isinstance(f["samples"], list) else f["samples"]
+            if got != want:
+                return "fit %s: samples differ from samples.csv (%s rows vs %s)" % (wid, len(got) if isinstance(got, list) else got, len(want))
+            if want:
+                lls = [unhex(q[1]) for q in want]
+                if f["max_log_likelihood"] is None or unhex(f["max_log_likelihood"]) != max(lls):
+                    return "fit %s: max_log_likelihood %s is not the maximum %r of its samples" % (wid, f["max_log_likelihood"], max(lls))
+                insts = rc.get("insts")
+                if insts:
+                    ok = {insts[i] for i, v in enumerate(lls) if v == max(lls)}
+                    if f.get("instance_digest") not in ok:
+                        return "fit %s: instance is not the instance of a maximum-likelihood sample" % wid
+        else:
+            if f["samples"] is not None or f["instance"] is not None:
+                return "fit %s: database holds samples/instance the directory does not hold" % wid
+        # multi-analysis children
+        kids = [rows[k] for k in f["children"] if k in rows]
+        if len(e["analyses"]) != len(kids):
+            return "fit %s: %d analyses folders but %d child fits" % (wid, len(e["analyses"]), len(kids))
+        if sorted(digest(a["json_digests"]) for a in e["analyses"]) != sorted(digest(k["json_digest"]) for k in kids):
+            return "fit %s: child fits do not hold the analyses' files" % wid
+    # nothing else that claims to be a search fit
+    for f in sc["fits"]:
+        if not f["is_grid_search"] and f["name"] is not None and f["id"] not in seen:
+            return "database fit %s corresponds to no search fit of the directory" % f["id"]
+    if co:
+        for e in r["directory"]:
+            if e["metadata"] and not e["completed"] and e.get("description_md5") in rows and len(written.get(e.get("description_md5"), [])) == 0:
+                return "incomplete fit %s loaded although completed_only" % e["rel"]
+    # grid searches
+    grows = [f for f in sc["fits"] if f["is_grid_search"]]
+    if len(grows) != len(gss):
+        return "%d grid-search folders but %d grid-search fits" % (len(gss), len(grows))
+    if sorted(sc.get("grid_searches", [])) != sorted(f["id"] for f in grows):
+        return "aggregator.grid_searches() does not list the grid-search fits"
+    used = set()
+    for e in gss:
+        cells = sorted(o.get("description_md5") for o in outs if (o["rel"] + "/").startswith(e["rel"] + "/"))
+        cand = [g for g in grows if sorted(g["children"]) == cells and g["id"] not in used]
+        if not cand:
+            return "grid search %s: no parent fit linked to exactly its %d cell fits" % (e["rel"], len(cells))
+        g = cand[0]
+        used.add(g["id"])
+        if bool(g["is_complete"]) != e["completed"]:
+            return "grid search %s: is_complete %r but .completed %s" % (e["rel"], g["is_complete"], e["completed"])
+        lls = [rows[k]["max_log_likelihood"] for k in cells]
+        if cells and all(x is not None for x in lls):
+            m = max(unhex(x) for x in lls)
+            b = g.get("best_fit")
+            if b not in rows or rows[b]["max_log_likelihood"] is None or unhex(rows[b]["max_log_likelihood"]) != m or b not in cells:
+                return "grid search %s: best fit %s is not a cell of highest likelihood" % (e["rel"], b)
+            if not any(x in cells and unhex(rows[x]["max_log_likelihood"]) == m for x in sc.get("best_fits", [])):
+                return "grid search %s: aggregator best_fits() misses its best cell" % e["rel"]
+    # agreement with the direct (session) route, scripted fits only
+    dr = r.get("direct")
+    if dr:
+        drows = {f["id"]: f for f in dr.get("fits", [])}
+        for f, rec, drec in zip(c["fits"], r["fits"], dr.get("fits_run", [])):
+            if f["search"]["cls"] != "Scripted" or drec.get("exc"):
+                continue
+            if f["type"] == "single":
+                if rec.get("identifier") != drec.get("identifier"):
+                    return "fit %s: identifier differs between routes" % f["name"]
+                a, b = rows.get(rec["identifier"]), drows.get(rec["identifier"])
+                if co and a is None:
+                    continue
+                if a is None or b is None:
+                    return "fit %s: present in only one of the two databases" % f["name"]
+                for k in ("name", "unique_tag", "is_complete", "info", "model", "instance", "max_log_likelihood", "samples"):
+                    if a[k] != b[k]:
+                        return "fit %s: %s differs between the scraped and the directly written database (%r vs %r)" % (f["name"], k, str(a[k])[:80], str(b[k])[:80])
+            else:
+                ca = {x["identifier"] for x in rec.get("cells", [])}
+                cb = {x["identifier"] for x in drec.get("cells", [])}
+                if ca != cb:
+                    return "grid search %s: cell identifiers differ between routes" % f["name"]
+                pb = drows.get(drec.get("identifier"))
+                if pb is not None and not co:
+                    ga = [g for g in grows if set(g["children"]) == set(pb["children"])]
+                    if not ga:
+                        return "grid search %s: scraped parent and directly written parent link different cells" % f["name"]
+                    for k in ca:
+                        a, b = rows.get(k), drows.get(k)
+                        if a is None or b is None:
+                            return "grid cell %s present in only one database" % k
+                        for kk in ("name", "unique_tag", "is_complete", "info", "model", "instance", "max_log_likelihood"):
+                            if a[kk] != b[kk]:
+                                return "grid cell %s: %s differs between routes" % (k, kk)
+    return None
+
+
+def nontrivial(c, r):
+    if c["kind"] == "settings":
+        return bool(c.get("kwargs")) or c.get("tag") is not None
+    if c["kind"] == "scenario":
+        return len(r.get("directory", [])) >= 2
+    return False
+
+
+def slim(c):
+    """case without the bulky parts (for samples / replay)"""
+    if c["kind"] != "scenario":
+        return c
+    return c
+
+
+def run(ctx):
+    ctx.rule = ("cases are (a) search-settings round trips: one concrete search class with generated constructor keywords, name, tag, prefix; "
+                "(b) scenarios: 2-4 fits (scripted single fits with generated model shape / samples / interruption point / info / layout "
+                "zip|folder|both / 1-3 combined analyses, grid searches with 2 or 4 cells, real search classes, copied folders) written by the "
+                "real code into one output directory that is then loaded with add_directory(completed_only in {False,True}) and also written "
+                "through a database session. A settings case is non-trivial when it has keywords or a tag; a scenario when its directory holds "
+                ">= 2 fit / grid-search folders. distinct = distinct abstract input")
+    ctx.trusted = [
+        "Coq 8.16.1 kernel incl. vm_compute",
+        "the structure translator in harness/vcheck/c11.py (AST of every search class __init__ and of GridSearchOutput.id -> coq/C11/Gen.v, fail-closed)",
+        "correspondence harness c11.py / impl/c11_impl.py / impl/c11_search.py (scripted search: only _fit/samples_from are test code); "
+        "os.walk order, json, csv, hashlib.md5, sqlite are used as oracles",
+        "modelled not verified: identifier tokens (C07) and model (de)serialisation (C08) enter the model as oracle values computed from the "
+        "files independently of the aggregator; SQLAlchemy flush/commit semantics (primary-key conflict => IntegrityError, nothing committed)",
+    ]
+    ctx.assumptions = [
+        "ids are opaque strings; `f_reload_id` (md5 of the tokens of the reloaded search, reloaded model and tag) is an oracle value per folder",
+        "theorems about scrape assume distinct identifiers (NoDup) and readable search settings; the cases outside are covered by the "
+        "_refuted witnesses and by correspondence only",
+        "best fit of a grid search is stated as: a linked cell whose likelihood is maximal (ties: any)",
+    ]
+    # 1. translator
+    try:
+        info = regenerate()
+        ctx.translated = {"gs_id_uses_folder": {"source": info["gs_id_source"], "line": 0}}
+        for cl in info["classes"]:
+            ctx.translated["sc_" + cl["name"]] = {"source": " -> ".join("%s(%s)" % (s["cls"], ",".join(s["super_kw"])) for s in cl["chain"])[:300],
+                                                   "line": cl["chain"][0]["line"]}
+        ctx.obligation("translator:Gen.v", "translator", True, "%d search classes; GridSearchOutput.id = %s" % (len(info["classes"]), info["gs_id_source"]))
+        translated = True
+        classes = [cl["name"] for cl in info["classes"]]
+        ctx.notes["code_variant"] = {
+            "grid_search_id": "folder name (C11_grid_fixed applies)" if info["gs_id_uses_folder"] else "marker text (C11_grid_partial applies; C11_grid_refuted witnesses the collision)",
+            "drawer_pops_number_of_cores": any(cl["name"] == "Drawer" and "number_of_cores" in cl["chain"][0]["pops"] for cl in info["classes"]),
+        }
+    except TranslationError as e:
+        ctx.obligation("translator:Gen.v", "translator", False, str(e))
+        translated = False
+        classes = sorted(SETTINGS_KW)
+    # 2. proofs
+    built = ctx.build() if translated else False
+    # 3. cases
+    cases = gen_cases(ctx, classes)
+    if ctx.replay:
+        rp = json.load(open(ctx.replay))
+        if rp.get("case"):
+            cases = [rp["case"]]
+    light = [c for c in cases if c["kind"] != "scenario"]
+    heavy = [c for c in cases if c["kind"] == "scenario"]
+    payloads = [{"cases": light}] if light else []
+    chunk = 1 if ctx.tier == "quick" else 2
+    for i in range(0, len(heavy), chunk):
+        payloads.append({"cases": heavy[i:i + chunk]})
+    outs = common.run_impl_parallel("c11_impl", payloads, timeout=1500, workers=min(common.NCPU, 12))
+    results = []
+    for p, o in zip(payloads, outs):
+        if "__error__" in o:
+            ctx.obligation("impl-driver", "harness", False, o["__error__"][-800:])
+            results += [{"exc": "driver", "msg": o["__error__"][-300:]}] * len(p["cases"])
+        else:
+            results += o["results"]
+    ordered = light + heavy
+    coq_cases, coq_idx = [], []
+    impl_classes = None
+    for i, (c, r) in enumerate(zip(ordered, results)):
+        if c["kind"] == "classes":
+            if "ok" in r:
+                impl_classes = r["ok"]["classes"]
+                same = sorted(impl_classes) == sorted(classes)
+                ctx.obligation("translator:search-classes-complete", "translator", same,
+                               "" if same else "runtime subclasses %s vs translated %s" % (impl_classes, classes))
+                if not same:
+                    ctx.failure("translator", "the translated set of search classes differs from NonLinearSearch's concrete subclasses",
+                                c, impl=impl_classes, found_input=False)
+            continue
+        classes_ = case_classes(c)
+        if "exc" in r:
+            ctx.count_case(c, False, c["kind"])
+            ctx.oracle["cases"] += 1
+            ctx.oracle["failures"] += 1
+            ctx.failure("oracle", "driver raised %s: %s" % (r["exc"], r.get("msg")), c, classes=classes_, impl=r.get("tb"))
+            continue
+        ro = r["ok"]
+        ctx.count_case(c, nontrivial(c, ro), c["kind"] if c["kind"] == "settings" else "scenario:" + c["flavour"])
+        ctx.oracle["cases"] += 1
+        if c["kind"] == "settings":
+            ctx.hist("settings_class", c["cls"])
+            msg = oracle_settings(c, ro)
+        else:
+            for f in c["fits"]:
+                ctx.hist("fit_type", f["type"])
+                ctx.hist("search", f["search"]["cls"])
+                ctx.hist("layout", f["layout"])
+                ctx.hist("interrupt", f["scripts"][0].get("interrupt"))
+                ctx.hist("n_analyses", f.get("n_analyses", 1))
+                ctx.hist("tag", "none" if f.get("tag") is None else "set")
+            ctx.hist("completed_only", bool(c.get("completed_only")))
+            ctx.hist("folders", len(ro.get("directory", [])))
+            msg = oracle_scenario(c, ro)
+        if msg:
+            ctx.oracle["failures"] += 1
+            ctx.failure("oracle", msg, c, classes=classes_, impl=summary(ro))
+        try:
+            cc = coq_case(c, ro)
+        except Exception as e:  # noqa
+            cc = None
+            ctx.obligation("abstraction:%d" % i, "harness", False, "%s: %s" % (type(e).__name__, e))
+        if cc:
+            coq_cases.append(cc)
+            coq_idx.append((i, msg))
+        if i % 9 == 0:
+            ctx.sample({"case": c if c["kind"] == "settings" else {"kind": "scenario", "flavour": c["flavour"],
+                                                                      "fits": [{k: f[k] for k in ("type", "name", "tag", "prefix", "search", "layout", "n_analyses")} for f in c["fits"]]}},
+                       limit=8)
+    # 4. correspondence
+    if os.path.exists(os.path.join(common.COQ, "C11", "Model.vo")) and os.path.exists(os.path.join(common.COQ, "C11", "Gen.vo")):
+        hdr = ctx.header(["Lib", "Gen", "Model"]) + "\nDefinition chk := check_case search_classes gs_id_uses_folder.\n"
+        bad, log = ctx.eval_cases(hdr, "case", "chk", coq_cases, shard=12)
+        if bad:
+            for b in bad[:6]:
+                i, msg = coq_idx[b]
+                c = ordered[i]
+                ctx.failure("correspondence", "model and implementation disagree on a %s case" % c["kind"], c,
+                            classes=case_classes(c), impl=summary(results[i].get("ok")), model=coq_cases[b][:3000],
+                            broken={"kind": "correspondence", "name": "C11.check_case"}, found_input=msg is not None)
+    else:
+        ctx.obligation("correspondence:cases", "correspondence", False, "Model.vo / Gen.vo not built")
+
+
+def summary(ro):
+    if not isinstance(ro, dict) or "scrape" not in ro:
+        return ro
+    sc = ro["scrape"]
+    return {
+        "fits": [{k: v for k, v in f.items() if k in ("identifier", "exc", "msg", "interrupted", "live_id")} for f in ro["fits"]],
+        "directory": [{k: e.get(k) for k in ("rel", "metadata", "completed", "grid_marker", "parent_identifier", "description_md5")} | {"recomputed_id": (e.get("recomputed") or {}).get("id"), "recomputed_exc": (e.get("recomputed") or {}).get("exc")} for e in ro["directory"]],
+        "scrape": {"exc": sc.get("exc"), "msg": sc.get("msg"), "rows": [{k: f[k] for k in ("id", "name", "unique_tag", "is_complete", "is_grid_search", "parent_id", "children", "max_log_likelihood", "best_fit")} for f in sc.get("fits", [])]},
+        "direct": None if not ro.get("direct") else {"exc": ro["direct"].get("exc"), "rows": [{k: f[k] for k in ("id", "name", "is_complete", "is_grid_search", "parent_id", "children")} for f in ro["direct"].get("fits", [])]},
+    }
+
+
+MANIFEST = {
+    "text": "Coq 8.16 model of (a) reading a search's persisted settings back, over constructor signatures regenerated from the source of "
+            "every search class, and (b) Scraper.scrape over an abstract output directory (fit folders, analyses children, grid-search "
+            "parents, completed_only, existing rows, primary-key conflicts) with universally quantified theorems (closed form of the loaded "
+            "database under distinct identifiers; one row per fit folder holding its model/instance/samples/flag/info; grid parents linked "
+            "to exactly their cells with a maximal-likelihood best fit; agreement with the session route), _refuted witnesses for the two "
+            "defects of the pinned code, plus vm_compute correspondence with real fits written and loaded by the running code and a "
+            "direct property oracle on every generated scenario",
+    "note": "Identifier tokens and model (de)serialisation are not re-modelled here (C07/C08): the recomputed identifier of a folder is an "
+            "oracle value read from the files independently of the aggregator; the oracle compares it with the folder name for every "
+            "generated model shape and search class. SQLAlchemy/SQLite are covered by correspondence only.",
+    "technique": "machine-checked proof in Coq (structure translator + hand-written state model) + vm_compute correspondence",
+}
